@@ -37,8 +37,8 @@ REQUIRE = {"inject:accepted": 300, "inject:refused": 1000, "suspend_one_tick": 5
 
 
 def scenario(rng, idx):
-    tps = rng.choice([1, 2, 3, 5, 7, 10, 20, 60, 100, 1000])
-    pool_ram = rng.choice([0.25, 1, 4, 16, 64, 256])
+    tps = rng.choice([1, 2, 3, 5, 7, 10, 20, 60, 100, 1000]) if rng.random() < 0.75 else rng.choice([64, 128, 4096, 10000, 44100, 100000])
+    pool_ram = rng.choice([0.25, 1, 4, 16, 64, 256, 2.75, 30.7])
     pool_cpu = rng.choice([2, 4, 10, 64])
     nops = rng.choice([1, 2, 2, 3, 4, 5])
     cpus = rng.choice([1, 2, pool_cpu])
